@@ -173,50 +173,36 @@ func (f feature) into(sig map[string]string) {
 	sig["via"] = f.via
 }
 
-// findField resolves a JSON member name to a struct field (exact name match first, then
-// case-insensitive; embedded untagged structs are searched breadth-first).  It only
-// steers signatures, the packages under test are never asked.
+// findField resolves a JSON member name to a struct field the way classic does (an exactly
+// named field of the visible set, else the first case-insensitive match in depth-first index
+// order).  It only steers signatures, the packages under test are never asked.
 func findField(t reflect.Type, name string) (reflect.StructField, string, bool) {
-	level := []reflect.Type{t}
-	for depth := 0; depth < 4 && len(level) > 0; depth++ {
-		var next []reflect.Type
-		for _, fold := range []bool{false, true} {
-			for _, st := range level {
-				for i := 0; i < st.NumField(); i++ {
-					f := st.Field(i)
-					n, o, skip := jsonFieldName(f)
-					if skip {
-						continue
-					}
-					_, tagged := f.Tag.Lookup("json")
-					if f.Anonymous && !tagged {
-						continue
-					}
-					if n == name || fold && strings.EqualFold(n, name) {
-						return f, o, true
-					}
-				}
-			}
+	var best *cand
+	fs := visibleFields(t)
+	for i := range fs {
+		c := &fs[i]
+		if c.name == name {
+			best = c
+			break
 		}
-		for _, st := range level {
-			for i := 0; i < st.NumField(); i++ {
-				f := st.Field(i)
-				_, tagged := f.Tag.Lookup("json")
-				if !f.Anonymous || tagged {
-					continue
-				}
-				et := f.Type
-				if et.Kind() == reflect.Pointer {
-					et = et.Elem()
-				}
-				if et.Kind() == reflect.Struct {
-					next = append(next, et)
-				}
-			}
+		if strings.EqualFold(c.name, name) && (best == nil || indexLess(c.index, best.index)) {
+			best = c
 		}
-		level = next
 	}
-	return reflect.StructField{}, "", false
+	if best == nil {
+		return reflect.StructField{}, "", false
+	}
+	ft := t
+	var f reflect.StructField
+	for _, i := range best.index {
+		if ft.Kind() == reflect.Pointer {
+			ft = ft.Elem()
+		}
+		f = ft.Field(i)
+		ft = f.Type
+	}
+	_, o, _ := jsonFieldName(f)
+	return f, o, true
 }
 
 // locate walks type and JSON tree in parallel down to the node containing off.
@@ -310,21 +296,6 @@ func locatePath(t reflect.Type, path string) feature {
 	return feature{typeName(t), opts, via}
 }
 
-// window renders up to n bytes of x from i, digits and hex digits of escapes normalized.
-func window(x []byte, i, n int) string {
-	if i > len(x) {
-		i = len(x)
-	}
-	j := min(i+n, len(x))
-	w := append([]byte(nil), x[i:j]...)
-	for k, c := range w {
-		if c >= '0' && c <= '9' {
-			w[k] = '#'
-		}
-	}
-	return fmt.Sprintf("%q", w)
-}
-
 func firstDiff(a, b []byte) int {
 	i := 0
 	for i < len(a) && i < len(b) && a[i] == b[i] {
@@ -370,8 +341,8 @@ var permissive = ref.Opts{AllowInvalidUTF8: true, AllowDup: true}
 // a value of type t (t may be nil for untyped APIs).
 func bytesDiffSig(sig map[string]string, t reflect.Type, a, b []byte) {
 	i := firstDiff(a, b)
-	sig["std"] = window(a, i, 6)
-	sig["v1"] = window(b, i, 6)
+	sig["std"] = normWindow(a, i, 4)
+	sig["v1"] = normWindow(b, i, 4)
 	na, nb := ref.Parse(a, permissive), ref.Parse(b, permissive)
 	if na != nil {
 		sig["std_at"] = nodeAt(na, i)
